@@ -28,4 +28,17 @@ def denoteShown (shown : List Int) (spans : List (Int × Int)) (minus : Bool) : 
   let ps := spans.flatMap fun sp => shown.filter fun p => decide (sp.1 ≤ p ∧ p < sp.2)
   (if minus then ps.reverse else ps, minus)
 
+/-- the hull of a non-empty list of positions given in plus-strand order: every position from the first to the last -/
+def hullOf (ps : List Int) : List Int :=
+  match ps.head?, ps.getLast? with
+  | some a, some b => seg a (b + 1)
+  | _, _ => []
+
+/-- what the CONTIGUOUS form of a feature slice (`get_slice(allow_gaps=True)`) denotes on a view retaining `[p0, p1)`:
+every parent position from the first to the last retained position of the feature (introns included), read on the
+feature's strand; nothing if no position of the feature is retained -/
+def denoteContig (spans : List (Int × Int)) (minus : Bool) (p0 p1 : Int) : List Int × Bool :=
+  let ps := spans.flatMap fun sp => seg (max sp.1 p0) (min sp.2 p1)
+  (if minus then (hullOf ps).reverse else hullOf ps, minus)
+
 end CogentModel.FeatureSpec
